@@ -21,7 +21,8 @@ RULE = ('D1: molecule/reaction specs spelled by the independent random writer (d
         'strings. oracles: only ValueError subclasses may escape; reference-valid strings must be accepted and equal; '
         'atom maps (none / all / dense partial) in molecule and reaction text become atom numbers; every element symbol in four letter cases in six contexts. hard-invalid strings must be rejected. non-trivial = >= 2 atoms and a branch, closure, bracket atom, stereo mark, '
         'CX block or reaction arrow; distinct by string'
-        '; also: component-start spellings are also placed in later components.')
+        '; also: component-start spellings are also placed in later components.'
+        '; also: source-text clause: every corpus / curated text is also read by RDKit and converted by the bridge; every label RDKit reads must be read with the same sense. writer styles start the string / a later component at a labelled centre. the curated witness list is swept completely on every run.')
 ASSUMPTIONS = ['reference reader/writer vf/oracles/smiles_ref.py written for this task from the OpenSMILES subset chython documents',
                'grey-zone strings (closure 0, conflicting closure bonds, duplicate maps, odd CX blocks ...) only have to '
                'return a well-formed object or raise ValueError',
@@ -599,8 +600,14 @@ def check_rxn(case, rec):
             try:
                 molgen.normalise(b)
             except Exception as e:
+                from ..oracles import mcb
+                try:
+                    uniq = mcb.analyse(mcb.mol_adj(a))['unique']
+                except OverflowError:
+                    uniq = False
                 rec.fail('rxn-normalise', f'{text!r}: {str(a)!r} cannot be normalised after reading: {type(e).__name__}: {e}',
-                         sig='aromatic-P-ambiguity' if wl.aromatic_p_ambiguity(a) else type(e).__name__)
+                         sig='aromatic-P-ambiguity' if wl.aromatic_p_ambiguity(a) else
+                         ('ring-system-without-unique-mcb' if not uniq else type(e).__name__))
                 return
             if molgen.map_snapshot(molgen.snapshot(a), mp) != molgen.snapshot(b):
                 sig = 'aromatic-P-ambiguity' if wl.aromatic_p_ambiguity(a) else ''
